@@ -31,6 +31,10 @@ type Engine struct {
 	Recycle int
 	// per-case wall clock limit enforced by the supervisor
 	Timeout time.Duration
+	// Poison reports that an observation means the worker is no longer fit for use (its own watchdog gave up on a
+	// call that may still be spinning in a leaked goroutine): the supervisor replaces the worker and counts the
+	// case towards the limit of hangs/crashes after which the remaining cases are not run
+	Poison func(res string) bool
 }
 
 func ArgMap(args []string) map[string]string {
@@ -234,6 +238,10 @@ func supervise(name string, e *Engine, inPath, outPath string, j int) {
 						c.kill()
 						c = nil
 						res = bad
+						bad64.Add(1)
+					} else if e.Poison != nil && e.Poison(res) {
+						c.kill()
+						c = nil
 						bad64.Add(1)
 					}
 					results[i] = lines[i] + " | " + res
